@@ -14,7 +14,8 @@ Definition c16_nets (cfg : Z) : list auth :=
      | 1 => [[dc key_kuebler_encoder 106; dc key_kuebler_encoder 107; dc key_kuebler_encoder 108; dc key_kuebler_encoder 109; dc key_kuebler_inclinometer 122];
              [dc key_volvo_d7e 0; dc key_laixer_vcu 18; dc key_laixer_hcu 74]]
      | 2 => [[dc key_laixer_hcu 74; dc key_kuebler_encoder 106; dc key_laixer_hcu 75]]
-     | _ => [[dc key_kuebler_inclinometer 122; dc key_j1939_ecu 32]]
+     | 3 => [[dc key_kuebler_inclinometer 122; dc key_j1939_ecu 32]]
+     | _ => [[dc key_laixer_hcu 74; dc key_laixer_vcu 18]]      (* 4: silent units with a timeout; 5: congested bus at start-up *)
      end).
 
 (* the daemon's tasks run to completion under any fair schedule (C16_bounded_steps): the model's
